@@ -211,7 +211,7 @@ pub fn run(tier: Tier, replay: Option<String>) -> i32 {
     // behaviour across configurations
     if replay.is_none() {
         let all: Vec<String> = ["vanilla", "tbc", "wrath", "sync", "tokio", "async-std", "encryption"].iter().map(|s| s.to_string()).collect();
-        let mut configs: Vec<Vec<String>> = vec![all.clone(), vec!["vanilla".into(), "sync".into()], vec!["tbc".into(), "tokio".into()], vec!["wrath".into(), "async-std".into()]];
+        let mut configs: Vec<Vec<String>> = vec![all.clone(), vec!["vanilla".into(), "sync".into()], vec!["tbc".into(), "tokio".into(), "encryption".into()], vec!["wrath".into(), "async-std".into(), "encryption".into()]];
         let extra = tier.pick(1usize, 10);
         let mut runner = vcommon::runner(seed, 0xC19F, 1);
         let draws = proptest::collection::vec(proptest::prelude::any::<u16>(), extra).new_tree(&mut runner).map(|t| t.current()).unwrap_or_default();
@@ -273,6 +273,16 @@ pub fn run(tier: Tier, replay: Option<String>) -> i32 {
                 }
             }
         }
+        // large server frames around the 2/3-byte Wrath header boundary (SMSG_WARDEN_DATA carries free bytes)
+        for e in es.iter().filter(|e| e.name == "SMSG_WARDEN_DATA" && e.dir == Direction::Server) {
+            for len in [0x7FFCusize, 0x7FFD, 0x7FFE, 0x8000, 0x9000] {
+                if let Some(mut f) = header(e, len) {
+                    f.extend(std::iter::repeat(0x5Au8).take(len));
+                    lines.push_str(&format!("{} {} {} {}\n", n, e.ns.text(), e.dir.name(), vcommon::hex(&f)));
+                    n += 1;
+                }
+            }
+        }
         let frames_path = target_root().join("frames.txt");
         if std::fs::write(&frames_path, &lines).is_err() {
             return 2;
@@ -330,14 +340,23 @@ pub fn run(tier: Tier, replay: Option<String>) -> i32 {
                         continue;
                     }
                     compared += 1;
-                    let same = if out.starts_with("ERR") || r0.starts_with("ERR") { out.starts_with("ERR") && r0.starts_with("ERR") && err_class(out) == err_class(r0) } else { out == r0 };
+                    // "<plain part> enc=<encrypted cycle>": the second part exists only with the encryption feature
+                    let (om, oe) = out.split_once(" enc=").map(|(a, b)| (a, Some(b))).unwrap_or((out.as_str(), None));
+                    let (rm, re) = r0.split_once(" enc=").map(|(a, b)| (a, Some(b))).unwrap_or((r0.as_str(), None));
+                    let main_same = if om.starts_with("ERR") || rm.starts_with("ERR") { om.starts_with("ERR") && rm.starts_with("ERR") && err_class(om) == err_class(rm) } else { om == rm };
+                    let enc_same = match (oe, re) {
+                        (Some(a), Some(b)) => a == b,
+                        _ => true,
+                    };
+                    let same = main_same && enc_same;
                     if !same {
                         diffs += 1;
                         if diffs <= 2 {
                             let frame_line = lines.lines().nth(id.parse::<usize>().unwrap_or(0)).unwrap_or("").to_string();
                             let sig = format!("c19:behaviour:{}:{}", f.join("+"), frame_line.split_whitespace().skip(1).take(2).collect::<Vec<_>>().join("/"));
                             let cut = |s: &str| if s.len() > 300 { format!("{}...", &s[..300]) } else { s.to_string() };
-                            c.fail(&sig, &format!("frame {} gives different results with features [{}] and with all features: {} vs {}", id, f.join(" "), cut(out), cut(r0)), json!({"features": f, "frame": frame_line, "this": out, "all_features": r0}));
+                            let (a, b) = if main_same { (format!("encrypted cycle: {}", oe.unwrap_or("")), format!("encrypted cycle: {}", re.unwrap_or(""))) } else { (cut(om), cut(rm)) };
+                            c.fail(&sig, &format!("frame {} gives different results with features [{}] and with all features: {} vs {}", id, f.join(" "), a, b), json!({"features": f, "frame": cut(&frame_line), "this": cut(out), "all_features": cut(r0)}));
                         }
                     }
                 }
